@@ -76,13 +76,15 @@ Definition cbs (tr : list cev) : list nat :=
 Definition losts (tr : list cev) : list nat :=
   flat_map (fun e => match e with CLost r => [r] | _ => [] end) tr.
 Definition cnt (l : list nat) (r : nat) : nat := count_occ Nat.eq_dec l r.
-Definition pend (s : cstream) (r : nat) : nat :=
-  match c_req s with Some r' => if Nat.eqb r' r then 1%nat else 0%nat | None => 0%nat end.
+Definition pend (x : cst) (r : nat) : nat :=
+  (match c_req (cs x) with Some r' => if Nat.eqb r' r then 1%nat else 0%nat | None => 0%nat end
+   + cnt (cchain x) r)%nat.
 
 Definition status_ok (e : cev) : Prop :=
   match e with
   | CCb _ st SrcCancel => st = UV_ECANCELED
   | CCb _ st SrcDelayed => st <> 0
+  | CCb _ st SrcRejected => st = UV_EALREADY
   | _ => True
   end.
 
@@ -95,28 +97,70 @@ Qed.
 
 Definition wf (x : cst) : Prop :=
   (forall r, c_req (cs x) = Some r -> (r < nreq x)%nat) /\
-  (c_closed (cs x) = true -> c_req (cs x) = None /\ c_closing (cs x) = true).
+  (c_closed (cs x) = true -> c_req (cs x) = None /\ c_closing (cs x) = true) /\
+  (c_req (cs x) = None -> cchain x = []) /\
+  (cpfix x = false -> cchain x = []).
 
-Record Good (x : cst) (e : list cev) (x' : cst) : Prop := {
+Lemma wf_keep x x' :
+  wf x -> c_req (cs x') = c_req (cs x) -> (nreq x <= nreq x')%nat ->
+  c_closed (cs x') = c_closed (cs x) -> (c_closing (cs x) = true -> c_closing (cs x') = true) ->
+  cchain x' = cchain x -> cpfix x' = cpfix x -> wf x'.
+Proof.
+  intros (W1 & W2 & W3 & W4) R N D C Ch P. unfold wf. rewrite R, D, Ch, P. repeat split; auto.
+  - intros r Hr. specialize (W1 _ Hr). lia.
+  - apply W2, H.
+  - apply C. apply W2, H.
+Qed.
+
+(* [din]/[dout]: requests taken off connect_req->queue that are owed a callback before /
+   after the step (uv__stream_connect and uv__stream_destroy move them to a local queue) *)
+(* how many requests the handle owes a callback: connect_req and those linked behind it *)
+Definition pendn (x : cst) : nat :=
+  ((match c_req (cs x) with Some _ => 1 | None => 0 end) + length (cchain x))%nat.
+
+Record GoodD (din dout : list nat) (x : cst) (e : list cev) (x' : cst) : Prop := {
   g_wf : wf x';
   g_n : (nreq x <= nreq x')%nat;
   g_fresh : Forall (fun r => nreq x <= r < nreq x')%nat (rets e);
   g_nodup : NoDup (rets e);
-  g_cnt : forall r, (cnt (cbs e) r + cnt (losts e) r + pend (cs x') r = cnt (subs e) r + pend (cs x) r)%nat;
+  g_cnt : forall r, (cnt (cbs e) r + cnt (losts e) r + pend x' r + cnt dout r
+                     = cnt (subs e) r + pend x r + cnt din r)%nat;
   g_tcp : c_tcp (cs x') = c_tcp (cs x);
   g_closing : c_closing (cs x) = true -> c_closing (cs x') = true;
   g_closed : c_closed (cs x) = true -> c_closed (cs x') = true;
-  g_lost : c_tcp (cs x) = true -> losts e = [];
-  g_st : Forall status_ok e
+  g_lost : c_tcp (cs x) = true \/ cpfix x = true -> losts e = [];
+  g_st : Forall status_ok e;
+  g_pfix : cpfix x' = cpfix x;
+  (* uv__req_register / uv__req_unregister: one registration per request owed a callback
+     (plus, in the unrepaired pipe code, one per overwritten request) *)
+  g_reg : (pendn x + length din <= creg x)%nat ->
+          (pendn x' + length dout <= creg x')%nat /\
+          (creg x' + pendn x + length din = creg x + pendn x' + length dout + length (losts e))%nat
 }.
+Notation Good := (GoodD [] []).
+
+Lemma cnt_nil r : cnt [] r = 0%nat. Proof. reflexivity. Qed.
+
+Lemma Good_frame d din dout x e x' : GoodD din dout x e x' -> GoodD (din ++ d) (dout ++ d) x e x'.
+Proof.
+  intros G. constructor; try apply G.
+  - intros r. rewrite !cnt_app. pose proof (g_cnt _ _ _ _ _ G r). lia.
+  - rewrite !app_length. intros H. destruct (g_reg _ _ _ _ _ G) as (A & B); lia.
+Qed.
 
 Lemma Good_same x x' :
-  wf x' -> nreq x' = nreq x -> c_req (cs x') = c_req (cs x) -> c_tcp (cs x') = c_tcp (cs x) ->
+  wf x -> nreq x' = nreq x -> c_req (cs x') = c_req (cs x) -> c_tcp (cs x') = c_tcp (cs x) ->
   (c_closing (cs x) = true -> c_closing (cs x') = true) ->
-  (c_closed (cs x) = true -> c_closed (cs x') = true) -> Good x [] x'.
+  c_closed (cs x') = c_closed (cs x) -> cchain x' = cchain x -> cpfix x' = cpfix x ->
+  creg x' = creg x -> Good x [] x'.
 Proof.
-  intros W N R T C1 C2. constructor; auto; try (cbn; constructor); try lia.
-  intros r. unfold pend. rewrite R. cbn. reflexivity.
+  intros W N R T C1 C2 Ch P Rg.
+  assert (W' : wf x') by (eapply wf_keep; eauto; lia).
+  constructor; auto; try (cbn; constructor); try lia.
+  - intros r. unfold pend. rewrite R, Ch. cbn. reflexivity.
+  - rewrite C2. auto.
+  - unfold pendn in *. rewrite R, Ch, Rg. cbn in *. lia.
+  - unfold pendn in *. rewrite R, Ch, Rg. cbn in *. lia.
 Qed.
 
 Lemma Good_refl x : wf x -> Good x [] x.
@@ -136,65 +180,73 @@ Proof.
   - apply IH; auto. intros y Ha Hb. apply (D y); [right; exact Ha|exact Hb].
 Qed.
 
-Lemma Good_trans x1 e1 x2 e2 x3 : Good x1 e1 x2 -> Good x2 e2 x3 -> Good x1 (e1 ++ e2) x3.
+Lemma Good_trans d1 d2 d3 x1 e1 x2 e2 x3 :
+  GoodD d1 d2 x1 e1 x2 -> GoodD d2 d3 x2 e2 x3 -> GoodD d1 d3 x1 (e1 ++ e2) x3.
 Proof.
   intros G1 G2. constructor.
-  - apply (g_wf _ _ _ G2).
-  - pose proof (g_n _ _ _ G1). pose proof (g_n _ _ _ G2). lia.
-  - rewrite rets_app. apply Forall_app. pose proof (g_n _ _ _ G1). pose proof (g_n _ _ _ G2). split.
-    + eapply Forall_impl; [|apply (g_fresh _ _ _ G1)]. cbn. intros; lia.
-    + eapply Forall_impl; [|apply (g_fresh _ _ _ G2)]. cbn. intros; lia.
-  - rewrite rets_app. apply NoDup_app_aux; [apply (g_nodup _ _ _ G1)|apply (g_nodup _ _ _ G2)|].
-    intros r H1 H2. pose proof (g_fresh _ _ _ G1) as F1. pose proof (g_fresh _ _ _ G2) as F2.
+  - apply (g_wf _ _ _ _ _ G2).
+  - pose proof (g_n _ _ _ _ _ G1). pose proof (g_n _ _ _ _ _ G2). lia.
+  - rewrite rets_app. apply Forall_app. pose proof (g_n _ _ _ _ _ G1). pose proof (g_n _ _ _ _ _ G2). split.
+    + eapply Forall_impl; [|apply (g_fresh _ _ _ _ _ G1)]. cbn. intros; lia.
+    + eapply Forall_impl; [|apply (g_fresh _ _ _ _ _ G2)]. cbn. intros; lia.
+  - rewrite rets_app. apply NoDup_app_aux; [apply (g_nodup _ _ _ _ _ G1)|apply (g_nodup _ _ _ _ _ G2)|].
+    intros r H1 H2. pose proof (g_fresh _ _ _ _ _ G1) as F1. pose proof (g_fresh _ _ _ _ _ G2) as F2.
     rewrite Forall_forall in F1, F2. specialize (F1 _ H1). specialize (F2 _ H2). cbn in *. lia.
   - intros r. rewrite cbs_app, losts_app, subs_app, !cnt_app.
-    pose proof (g_cnt _ _ _ G1 r). pose proof (g_cnt _ _ _ G2 r). lia.
-  - rewrite (g_tcp _ _ _ G2). apply (g_tcp _ _ _ G1).
-  - intros H. apply (g_closing _ _ _ G2), (g_closing _ _ _ G1), H.
-  - intros H. apply (g_closed _ _ _ G2), (g_closed _ _ _ G1), H.
-  - intros H. rewrite losts_app, (g_lost _ _ _ G1 H), (g_lost _ _ _ G2); [reflexivity|].
-    rewrite (g_tcp _ _ _ G1). exact H.
-  - apply Forall_app. split; [apply (g_st _ _ _ G1)|apply (g_st _ _ _ G2)].
+    pose proof (g_cnt _ _ _ _ _ G1 r). pose proof (g_cnt _ _ _ _ _ G2 r). lia.
+  - rewrite (g_tcp _ _ _ _ _ G2). apply (g_tcp _ _ _ _ _ G1).
+  - intros H. apply (g_closing _ _ _ _ _ G2), (g_closing _ _ _ _ _ G1), H.
+  - intros H. apply (g_closed _ _ _ _ _ G2), (g_closed _ _ _ _ _ G1), H.
+  - intros H. rewrite losts_app, (g_lost _ _ _ _ _ G1 H), (g_lost _ _ _ _ _ G2); [reflexivity|].
+    rewrite (g_tcp _ _ _ _ _ G1), (g_pfix _ _ _ _ _ G1). exact H.
+  - apply Forall_app. split; [apply (g_st _ _ _ _ _ G1)|apply (g_st _ _ _ _ _ G2)].
+  - rewrite (g_pfix _ _ _ _ _ G2). apply (g_pfix _ _ _ _ _ G1).
+  - intros H. destruct (g_reg _ _ _ _ _ G1 H) as (A1 & B1). destruct (g_reg _ _ _ _ _ G2 A1) as (A2 & B2).
+    split; [exact A2|]. rewrite losts_app, app_length. lia.
 Qed.
 
 (* ---- primitive steps ---- *)
 Lemma Good_ret_fail x x' c :
   wf x -> c <> 0 -> nreq x' = S (nreq x) -> c_req (cs x') = c_req (cs x) ->
   c_tcp (cs x') = c_tcp (cs x) -> c_closing (cs x') = c_closing (cs x) ->
-  c_closed (cs x') = c_closed (cs x) -> Good x [CRet (nreq x) c] x'.
+  c_closed (cs x') = c_closed (cs x) -> cchain x' = cchain x -> cpfix x' = cpfix x ->
+  creg x' = creg x -> Good x [CRet (nreq x) c] x'.
 Proof.
-  intros (W1 & W2) Hc N R T C1 C2. constructor.
-  - split.
-    + intros r Hr. rewrite R in Hr. specialize (W1 _ Hr). lia.
-    + rewrite C2, R, C1. exact W2.
+  intros W Hc N R T C1 C2 Ch P Rg. constructor.
+  - eapply wf_keep; eauto; try lia.
   - lia.
   - cbn. repeat constructor; lia.
   - cbn. repeat constructor. intros [].
-  - intros r. unfold pend. rewrite R. cbn. destruct (Z.eqb_spec c 0); [contradiction|]. reflexivity.
+  - intros r. unfold pend. rewrite R, Ch. cbn. destruct (Z.eqb_spec c 0); [contradiction|]. reflexivity.
   - exact T.
   - rewrite C1; auto.
   - rewrite C2; auto.
   - reflexivity.
   - repeat constructor.
+  - exact P.
+  - unfold pendn. rewrite R, Ch, Rg. cbn. lia.
 Qed.
 
 Definition lost_of (s : cstream) : list cev := match c_req s with Some r0 => [CLost r0] | None => [] end.
 
+(* a request becomes connect_req; in the unrepaired pipe code this may overwrite another *)
 Lemma Good_ret_ok x x' :
   wf x -> nreq x' = S (nreq x) -> c_req (cs x') = Some (nreq x) ->
-  (c_tcp (cs x) = true -> c_req (cs x) = None) ->
+  (c_tcp (cs x) = true \/ cpfix x = true -> c_req (cs x) = None) ->
   c_tcp (cs x') = c_tcp (cs x) -> c_closing (cs x') = c_closing (cs x) ->
-  c_closed (cs x') = false -> c_closed (cs x) = false ->
-  Good x (lost_of (cs x) ++ [CRet (nreq x) 0]) x'.
+  c_closed (cs x') = false -> c_closed (cs x) = false -> cchain x' = cchain x -> cpfix x' = cpfix x ->
+  creg x' = S (creg x) -> Good x (lost_of (cs x) ++ [CRet (nreq x) 0]) x'.
 Proof.
-  intros (W1 & W2) N R Ht T C1 C2 C3. constructor.
-  - split.
-    + intros r Hr. rewrite R in Hr. inversion Hr; subst. lia.
-    + rewrite C2. discriminate.
+  intros (W1 & W2 & W3 & W4) N R Ht T C1 C2 C3 Ch P Rg.
+  assert (Hch : cchain x = []).
+  { destruct (cpfix x) eqn:E; [|apply W4; reflexivity]. apply W3, Ht. right; reflexivity. }
+  constructor.
+  - unfold wf. rewrite R, C2, Ch, Hch. repeat split; try discriminate; auto.
+    intros r Hr. inversion Hr; subst. lia.
   - lia.
   - unfold lost_of. destruct (c_req (cs x)); cbn; repeat constructor; lia.
   - unfold lost_of. destruct (c_req (cs x)); cbn; repeat constructor; intros [].
-  - intros r. unfold pend, lost_of. rewrite R.
+  - intros r. unfold pend, lost_of. rewrite R, Ch, Hch.
     destruct (c_req (cs x)) as [r0|]; cbn;
       repeat match goal with |- context [Nat.eq_dec ?a ?b] => destruct (Nat.eq_dec a b) end;
       repeat match goal with |- context [Nat.eqb ?a ?b] => destruct (Nat.eqb_spec a b) end;
@@ -204,28 +256,79 @@ Proof.
   - rewrite C3; discriminate.
   - intros H. unfold lost_of. rewrite (Ht H). reflexivity.
   - unfold lost_of. destruct (c_req (cs x)); repeat constructor.
+  - exact P.
+  - unfold pendn, lost_of. rewrite R, Ch, Hch, Rg. destruct (c_req (cs x)); cbn; lia.
 Qed.
 
+(* repaired uv_pipe_connect while a connect is pending: the request is linked behind it *)
+Lemma Good_chain x x' :
+  wf x -> nreq x' = S (nreq x) -> c_req (cs x') = c_req (cs x) -> c_req (cs x) <> None ->
+  cpfix x = true -> c_tcp (cs x') = c_tcp (cs x) -> c_closing (cs x') = c_closing (cs x) ->
+  c_closed (cs x') = c_closed (cs x) -> cchain x' = cchain x ++ [nreq x] -> cpfix x' = cpfix x ->
+  creg x' = S (creg x) -> Good x [CRet (nreq x) 0] x'.
+Proof.
+  intros (W1 & W2 & W3 & W4) N R Rn Pf T C1 C2 Ch P Rg. constructor.
+  - unfold wf. rewrite R, C2, C1, Ch, P, Pf. repeat split; auto.
+    + intros r Hr. specialize (W1 _ Hr). lia.
+    + apply W2, H.
+    + apply W2, H.
+    + intros H. contradiction.
+    + discriminate.
+  - lia.
+  - cbn. repeat constructor; lia.
+  - cbn. repeat constructor. intros [].
+  - intros r. unfold pend. rewrite R, Ch, cnt_app, cnt_single. cbn.
+    destruct (Nat.eq_dec (nreq x) r), (Nat.eqb_spec (nreq x) r); try contradiction; lia.
+  - exact T.
+  - rewrite C1; auto.
+  - rewrite C2; auto.
+  - reflexivity.
+  - repeat constructor.
+  - exact P.
+  - unfold pendn. rewrite R, Ch, Rg, app_length. cbn. lia.
+Qed.
+
+(* connect_req completes: its callback is owed no more, the linked requests are moved out *)
 Lemma Good_cb x x' r st src :
-  wf x -> c_req (cs x) = Some r -> c_req (cs x') = None -> nreq x' = nreq x ->
+  wf x -> c_req (cs x) = Some r -> c_req (cs x') = None -> cchain x' = [] -> nreq x' = nreq x ->
   c_tcp (cs x') = c_tcp (cs x) ->
   (c_closing (cs x) = true -> c_closing (cs x') = true) ->
   (c_closed (cs x) = true -> c_closed (cs x') = true) ->
-  (c_closed (cs x') = true -> c_closing (cs x') = true) ->
-  status_ok (CCb r st src) -> Good x [CCb r st src] x'.
+  (c_closed (cs x') = true -> c_closing (cs x') = true) -> cpfix x' = cpfix x ->
+  creg x' = pred (creg x) ->
+  status_ok (CCb r st src) -> GoodD [] (cchain x) x [CCb r st src] x'.
 Proof.
-  intros (W1 & W2) R R' N T C1 C2 C3 S. constructor; auto.
-  - split; [intros r0 Hr; rewrite R' in Hr; discriminate|]. intros H. split; [exact R'|apply C3, H].
+  intros (W1 & W2 & W3 & W4) R R' Ch N T C1 C2 C3 P Rg S. constructor; auto.
+  - unfold wf. rewrite R', Ch. repeat split; auto; discriminate.
   - lia.
   - cbn. constructor.
   - cbn. constructor.
-  - intros r0. unfold pend. rewrite R, R'. cbn.
-    destruct (Nat.eq_dec r r0), (Nat.eqb_spec r r0); try reflexivity; contradiction.
+  - intros r0. unfold pend. rewrite R, R', Ch. cbn.
+    destruct (Nat.eq_dec r r0), (Nat.eqb_spec r r0); try contradiction; lia.
+  - unfold pendn. rewrite R, R', Ch, Rg. cbn. lia.
+Qed.
+
+(* a moved-out request is unregistered and gets its callback *)
+Lemma Good_reject1 x q t st src :
+  wf x -> status_ok (CCb q st src) ->
+  GoodD (q :: t) t x [CCb q st src]
+        (mkCs (cs x) (co x) (nreq x) (ccbn x) (cchain x) (cpfix x) (pred (creg x))).
+Proof.
+  intros W S. constructor; auto; try (cbn; constructor); try lia; try constructor; auto.
+  - intros r. unfold cnt, pend. cbn. destruct (Nat.eq_dec q r); lia.
+  - unfold pendn. cbn. lia.
+Qed.
+
+Lemma Good_event x ev :
+  match ev with CClosed | CReg _ => True | _ => False end -> wf x -> Good x [ev] x.
+Proof.
+  intros E W. destruct ev; try contradiction;
+    (constructor; auto; try (cbn; constructor); try lia; try constructor; cbn; lia).
 Qed.
 
 Lemma wf_not_closed x : wf x -> c_closing (cs x) = false -> c_closed (cs x) = false.
 Proof.
-  intros (_ & W2) H. destruct (c_closed (cs x)); [|reflexivity].
+  intros (_ & W2 & _) H. destruct (c_closed (cs x)); [|reflexivity].
   destruct (W2 eq_refl) as (_ & C). congruence.
 Qed.
 
@@ -240,10 +343,10 @@ Proof.
   assert (Out : forall tcp fd dl fed cl cd o, tcp = c_tcp (cs x) -> cl = c_closing (cs x) ->
             cd = c_closed (cs x) ->
             Good x [CRet (nreq x) 0]
-              (mkCs (mkC tcp fd (Some (nreq x)) dl true fed cl cd) o (S (nreq x)) (ccbn x))).
+              (mkCs (mkC tcp fd (Some (nreq x)) dl true fed cl cd) o (S (nreq x)) (ccbn x) (cchain x) (cpfix x) (S (creg x)))).
   { intros tcp fd dl fed cl cd o T1 T2 T3.
     pose proof (Good_ret_ok x (mkCs (mkC tcp fd (Some (nreq x)) dl true fed cl cd)
-                    o (S (nreq x)) (ccbn x)) W) as G.
+                    o (S (nreq x)) (ccbn x) (cchain x) (cpfix x) (S (creg x))) W) as G.
     unfold lost_of in G. rewrite R in G. cbn [app] in G.
     apply G; cbn; auto; congruence. }
   destruct (c_delayed (cs x) =? 0); cbn [negb] in H.
@@ -260,28 +363,30 @@ Proof.
   apply orb_false_elim in Ea. destruct Ea as (Ea & _). destruct (Z.eqb_spec a 0); [discriminate|assumption].
 Qed.
 
-Lemma bind_busy_good x x' e : wf x -> bind_busy x = (x', e) -> Good x e x'.
+Lemma bind_busy_good b x x' e : wf x -> bind_busy b x = (x', e) -> Good x e x'.
 Proof.
   intros W H. unfold bind_busy in H.
   destruct (if c_fd (cs x) then (0, o_sock (co x)) else next_z (o_sock (co x))) as [serr so'].
-  destruct (negb (serr =? 0)); inversion H; subst; apply Good_same; cbn; auto; exact W.
+  destruct (negb (serr =? 0)); inversion H; subst; apply Good_same; cbn; auto.
 Qed.
 
 Lemma pipe_body_spec x flags n z x' e res :
   pipe_connect2_body x flags n z = (x', e, res) ->
   nreq x' = nreq x /\ ccbn x' = ccbn x /\ c_tcp (cs x') = c_tcp (cs x) /\
   c_closing (cs x') = c_closing (cs x) /\ c_closed (cs x') = c_closed (cs x) /\
+  cchain x' = cchain x /\ cpfix x' = cpfix x /\
   match res with
   | Some err => x' = x /\ e = [] /\ err <> 0
-  | None => c_req (cs x') = Some (nreq x) /\ e = lost_of (cs x)
+  | None => c_req (cs x') = Some (nreq x) /\ e = lost_of (cs x) /\ creg x' = S (creg x)
   end.
 Proof.
   intros H. unfold pipe_connect2_body in H.
   assert (Inv : (x, @nil cev, Some UV_EINVAL_) = (x', e, res) ->
      nreq x' = nreq x /\ ccbn x' = ccbn x /\ c_tcp (cs x') = c_tcp (cs x) /\
      c_closing (cs x') = c_closing (cs x) /\ c_closed (cs x') = c_closed (cs x) /\
+     cchain x' = cchain x /\ cpfix x' = cpfix x /\
      match res with Some err => x' = x /\ e = [] /\ err <> 0
-                  | None => c_req (cs x') = Some (nreq x) /\ e = lost_of (cs x) end).
+                  | None => c_req (cs x') = Some (nreq x) /\ e = lost_of (cs x) /\ creg x' = S (creg x) end).
   { intros H'. inversion H'; subst. repeat split; auto. unfold UV_EINVAL_; lia. }
   destruct (negb (Z.land flags (Z.lnot 1) =? 0)); [apply (Inv H)|].
   destruct (Nat.eqb n 0); [apply (Inv H)|].
@@ -295,18 +400,29 @@ Proof.
   destruct ((a =? 0) || (a =? UV_EINPROGRESS)); inversion H; subst; cbn; repeat split; reflexivity.
 Qed.
 
+Lemma pending_spec s : pending s = true <-> c_req s <> None.
+Proof. unfold pending. destruct (c_req s); split; try discriminate; auto; intros H; contradiction. Qed.
+
+Lemma guard_none x : cpfix x && pending (cs x) = false -> cpfix x = true -> c_req (cs x) = None.
+Proof.
+  intros G P. rewrite P in G. cbn in G. unfold pending in G. destruct (c_req (cs x)); [discriminate|reflexivity].
+Qed.
+
 Lemma pipe_connect2_good x flags n z x' e :
   wf x -> c_closing (cs x) = false -> c_tcp (cs x) = false ->
   pipe_connect2 x flags n z = (x', e) -> Good x e x'.
 Proof.
   intros W Hc Ht H. pose proof (wf_not_closed x W Hc) as Hd. unfold pipe_connect2 in H.
+  destruct (cpfix x && pending (cs x)) eqn:G.
+  { inversion H; subst. apply Good_ret_fail; cbn; auto. unfold UV_EALREADY; lia. }
   destruct (pipe_connect2_body x flags n z) as [[x1 e1] res] eqn:B.
-  destruct (pipe_body_spec _ _ _ _ _ _ _ B) as (N & _ & T & C1 & C2 & R).
+  destruct (pipe_body_spec _ _ _ _ _ _ _ B) as (N & _ & T & C1 & C2 & Ch & P & R).
   destruct res as [err|].
   - destruct R as (-> & -> & Herr). inversion H; subst. cbn [app].
     apply Good_ret_fail; cbn; auto.
-  - destruct R as (R & ->). inversion H; subst.
+  - destruct R as (R & -> & Rg). inversion H; subst.
     apply Good_ret_ok; cbn; auto; try congruence.
+    intros [F|F]; [congruence|apply (guard_none _ G F)].
 Qed.
 
 Lemma pipe_connect_good x n x' e :
@@ -314,22 +430,26 @@ Lemma pipe_connect_good x n x' e :
   pipe_connect x n = (x', e) -> Good x e x'.
 Proof.
   intros W Hc Ht H. pose proof (wf_not_closed x W Hc) as Hd. unfold pipe_connect in H.
+  destruct (cpfix x && pending (cs x)) eqn:G.
+  { inversion H; subst. apply andb_prop in G. destruct G as (G1 & G2).
+    apply Good_chain; cbn; auto. apply pending_spec, G2. }
   destruct (pipe_connect2_body x 0 n false) as [[x1 e1] res] eqn:B.
-  destruct (pipe_body_spec _ _ _ _ _ _ _ B) as (N & _ & T & C1 & C2 & R).
+  destruct (pipe_body_spec _ _ _ _ _ _ _ B) as (N & _ & T & C1 & C2 & Ch & P & R).
   destruct res as [err|].
   - destruct R as (-> & -> & Herr). unfold pipe_out in H. inversion H; subst. cbn [app].
     change (match c_req (cs x) with Some r0 => [CLost r0] | None => [] end) with (lost_of (cs x)).
-    apply Good_ret_ok; cbn; auto; congruence.
-  - destruct R as (R & ->). inversion H; subst.
     apply Good_ret_ok; cbn; auto; try congruence.
+    intros [F|F]; [congruence|apply (guard_none _ G F)].
+  - destruct R as (R & -> & Rg). inversion H; subst.
+    apply Good_ret_ok; cbn; auto; try congruence.
+    intros [F|F]; [congruence|apply (guard_none _ G F)].
 Qed.
 
 Lemma cclose_good x x' e : wf x -> cclose x = (x', e) -> Good x e x'.
 Proof.
   intros W H. unfold cclose in H. destruct (c_closing (cs x)) eqn:C; inversion H; subst.
   - apply Good_refl, W.
-  - apply Good_same; cbn; auto. destruct W as (W1 & W2). split; cbn; [exact W1|].
-    intros Hd. destruct (W2 Hd) as (R & _). split; [exact R|reflexivity].
+  - apply Good_same; cbn; auto.
 Qed.
 
 Lemma cexec_simple_good x o x' e : wf x -> cexec_simple x o = (x', e) -> Good x e x'.
@@ -351,16 +471,33 @@ Proof.
   - inversion H; subst. apply Good_refl, W.
   - destruct (cexec_simple x o) as [x1 e1] eqn:E1. destruct (cexec_cb x1 r) as [x2 e2] eqn:E2.
     inversion H; subst. pose proof (cexec_simple_good _ _ _ _ W E1) as G1.
-    eapply Good_trans; [exact G1|]. apply IH; [apply (g_wf _ _ _ G1)|exact E2].
+    eapply Good_trans; [exact G1|]. change (CReg (creg x1) :: e2) with ([CReg (creg x1)] ++ e2).
+    eapply Good_trans; [apply Good_event; [exact I|apply (g_wf _ _ _ _ _ G1)]|].
+    apply IH; [apply (g_wf _ _ _ _ _ G1)|exact E2].
 Qed.
 
 Lemma run_cb_good x beh x' e : wf x -> run_cb x beh = (x', e) -> Good x e x'.
 Proof.
   intros W H. unfold run_cb in H.
-  assert (W' : wf (mkCs (cs x) (co x) (nreq x) (S (ccbn x)))) by exact W.
+  assert (W' : wf (mkCs (cs x) (co x) (nreq x) (S (ccbn x)) (cchain x) (cpfix x) (creg x))) by exact W.
   pose proof (cexec_cb_good _ _ _ _ W' H) as G.
   replace e with ([] ++ e) by reflexivity. eapply Good_trans; [|exact G].
   apply Good_same; cbn; auto.
+Qed.
+
+Lemma reject_good beh st src ch : forall x x' e,
+  wf x -> (forall q, status_ok (CCb q st src)) -> reject ch st src x beh = (x', e) -> GoodD ch [] x e x'.
+Proof.
+  induction ch as [|q t IH]; intros x x' e W S H; cbn [reject] in H.
+  - inversion H; subst. apply Good_refl, W.
+  - match type of H with (let (_, _) := run_cb ?y beh in _) = _ => destruct (run_cb y beh) as [x1 e1] eqn:E1 end.
+    destruct (reject t st src x1 beh) as [x2 e2] eqn:E2.
+    pose proof (Good_reject1 x q t st src W (S q)) as G0.
+    pose proof (run_cb_good _ _ _ _ (g_wf _ _ _ _ _ G0) E1) as G1.
+    pose proof (IH _ _ _ (g_wf _ _ _ _ _ G1) S E2) as G2.
+    pose proof (Good_trans _ _ _ _ _ _ _ _ G0
+                  (Good_trans _ _ _ _ _ _ _ _ (Good_frame t _ _ _ _ _ G1) G2)) as G.
+    inversion H; subst. exact G.
 Qed.
 
 Lemma stream_connect_good x beh x' e : wf x -> stream_connect x beh = (x', e) -> Good x e x'.
@@ -370,25 +507,30 @@ Proof.
   assert (Step : forall (error : Z) (src : csrc) (s1 : cstream) (o' : corc),
      c_tcp s1 = c_tcp (cs x) -> c_req s1 = c_req (cs x) -> c_closing s1 = c_closing (cs x) ->
      c_closed s1 = c_closed (cs x) -> status_ok (CCb r error src) ->
-     (if error =? UV_EINPROGRESS then (mkCs s1 o' (nreq x) (ccbn x), [])
+     (if error =? UV_EINPROGRESS then (mkCs s1 o' (nreq x) (ccbn x) (cchain x) (cpfix x) (creg x), [])
       else let s2 := mkC (c_tcp s1) (c_fd s1) None (c_delayed s1) false (c_fed s1) (c_closing s1) (c_closed s1) in
-           let (x'0, e0) := run_cb (mkCs s2 o' (nreq x) (ccbn x)) beh in (x'0, CCb r error src :: e0)) = (x', e) ->
+           let (x1, e1) := run_cb (mkCs s2 o' (nreq x) (ccbn x) [] (cpfix x) (pred (creg x))) beh in
+           let (x2, e2) := reject (cchain x) UV_EALREADY SrcRejected x1 beh in
+           (x2, CCb r error src :: e1 ++ e2)) = (x', e) ->
      Good x e x').
   { intros error src s1 o' T1 T2 T3 T4 St H'.
     destruct (error =? UV_EINPROGRESS).
-    - inversion H'; subst. apply Good_same; cbn; auto. destruct W as (W1 & W2).
-      split; cbn; [rewrite T2; exact W1|rewrite T4, T2, T3; exact W2].
-      all: congruence.
+    - inversion H'; subst. apply Good_same; cbn; auto; congruence.
     - cbv zeta in H'.
       destruct (run_cb (mkCs (mkC (c_tcp s1) (c_fd s1) None (c_delayed s1) false (c_fed s1)
-                                  (c_closing s1) (c_closed s1)) o' (nreq x) (ccbn x)) beh) as [x2 e2] eqn:Er.
-      inversion H'; subst. change (CCb r error src :: e2) with ([CCb r error src] ++ e2).
-      assert (G1 : Good x [CCb r error src]
+                                  (c_closing s1) (c_closed s1)) o' (nreq x) (ccbn x) [] (cpfix x) (pred (creg x))) beh)
+        as [x1 e1] eqn:Er.
+      destruct (reject (cchain x) UV_EALREADY SrcRejected x1 beh) as [x2 e2] eqn:Ej.
+      inversion H'; subst. change (CCb r error src :: e1 ++ e2) with ([CCb r error src] ++ e1 ++ e2).
+      assert (G1 : GoodD [] (cchain x) x [CCb r error src]
                  (mkCs (mkC (c_tcp s1) (c_fd s1) None (c_delayed s1) false (c_fed s1)
-                            (c_closing s1) (c_closed s1)) o' (nreq x) (ccbn x))).
+                            (c_closing s1) (c_closed s1)) o' (nreq x) (ccbn x) [] (cpfix x) (pred (creg x)))).
       { apply Good_cb; cbn; auto; try congruence.
-        destruct W as (_ & W2). rewrite T4, T3. intros Hd. apply (W2 Hd). }
-      eapply Good_trans; [exact G1|]. eapply run_cb_good; [apply (g_wf _ _ _ G1)|exact Er]. }
+        destruct W as (_ & W2 & _). rewrite T4, T3. intros Hd. apply (W2 Hd). }
+      eapply Good_trans; [exact G1|].
+      pose proof (run_cb_good _ _ _ _ (g_wf _ _ _ _ _ G1) Er) as G2.
+      eapply Good_trans; [apply (Good_frame (cchain x) _ _ _ _ _ G2)|]. cbn [app].
+      eapply reject_good; [apply (g_wf _ _ _ _ _ G2)| |exact Ej]. intros q. reflexivity. }
   destruct (Z.eqb_spec (c_delayed (cs x)) 0) as [Ed|Ed]; cbn [negb] in H.
   - destruct (next_z (o_so (co x))) as [er so'] eqn:En. eapply Step; [..|exact H]; auto. exact I.
   - eapply Step; [..|exact H]; cbn; auto.
@@ -399,7 +541,6 @@ Proof.
   intros W H. unfold stream_io in H. destruct (c_req (cs x)) eqn:R.
   - eapply stream_connect_good; eauto.
   - inversion H; subst. apply Good_same; cbn; auto.
-    destruct W as (W1 & W2). split; cbn; [discriminate|]. rewrite R in W2. exact W2.
 Qed.
 
 Lemma unfeed_good x : wf x -> Good x [] (unfeed x).
@@ -409,7 +550,7 @@ Lemma run_pending_good x beh x' e : wf x -> run_pending x beh = (x', e) -> Good 
 Proof.
   intros W H. unfold run_pending in H. destruct (c_fed (cs x)).
   - replace e with ([] ++ e) by reflexivity. eapply Good_trans; [apply unfeed_good, W|].
-    eapply stream_io_good; [exact W|exact H].
+    eapply stream_io_good; [apply (g_wf _ _ _ _ _ (unfeed_good x W))|exact H].
   - inversion H; subst. apply Good_refl, W.
 Qed.
 
@@ -420,33 +561,40 @@ Proof.
   - destruct (c_fed (cs x)); [|inversion H; subst; apply Good_refl, W].
     destruct (stream_io (unfeed x) beh) as [x1 e1] eqn:E1.
     destruct (drain n x1 beh) as [x2 e2] eqn:E2. inversion H; subst.
-    pose proof (stream_io_good _ _ _ _ (W : wf (unfeed x)) E1) as G1.
+    pose proof (stream_io_good _ _ _ _ (g_wf _ _ _ _ _ (unfeed_good x W)) E1) as G1.
     replace (e1 ++ e2) with ([] ++ e1 ++ e2) by reflexivity.
     eapply Good_trans; [apply unfeed_good, W|]. eapply Good_trans; [exact G1|].
-    apply IH; [apply (g_wf _ _ _ G1)|exact E2].
+    apply IH; [apply (g_wf _ _ _ _ _ G1)|exact E2].
 Qed.
 
-Lemma Good_closed_event x : wf x -> Good x [CClosed] x.
-Proof.
-  intros W. constructor; auto; try (cbn; constructor); try lia; try constructor.
-Qed.
+Lemma Good_event_closed x : wf x -> Good x [CClosed] x.
+Proof. intros W. apply Good_event; [exact I|exact W]. Qed.
 
 Lemma destroy_good x beh x' e : wf x -> destroy x beh = (x', e) -> Good x e x'.
 Proof.
   intros W H. unfold destroy in H. destruct (c_req (cs x)) as [r|] eqn:R.
-  - match type of H with (let (_, _) := run_cb ?y beh in _) = _ => destruct (run_cb y beh) as [x2 e2] eqn:Er end.
-    inversion H; subst. change (CCb r UV_ECANCELED SrcCancel :: e2 ++ [CClosed])
-      with ([CCb r UV_ECANCELED SrcCancel] ++ e2 ++ [CClosed]).
+  - match type of H with (let (_, _) := run_cb ?y beh in _) = _ => destruct (run_cb y beh) as [x1 e1] eqn:Er end.
+    destruct (reject (cchain x) UV_ECANCELED SrcCancel x1 beh) as [x2 e2] eqn:Ej.
     match type of Er with run_cb ?y beh = _ =>
-      assert (G1 : Good x [CCb r UV_ECANCELED SrcCancel] y) by (apply Good_cb; cbn; auto) end.
-    eapply Good_trans; [exact G1|].
-    pose proof (run_cb_good _ _ _ _ (g_wf _ _ _ G1) Er) as G2.
-    eapply Good_trans; [exact G2|]. apply Good_closed_event, (g_wf _ _ _ G2).
+      assert (G1 : GoodD [] (cchain x) x [CCb r UV_ECANCELED SrcCancel] y) by (apply Good_cb; cbn; auto) end.
+    pose proof (run_cb_good _ _ _ _ (g_wf _ _ _ _ _ G1) Er) as G2.
+    assert (G3 : GoodD (cchain x) [] x1 e2 x2).
+    { eapply reject_good; [apply (g_wf _ _ _ _ _ G2)| |exact Ej]. intros q. reflexivity. }
+    pose proof (Good_event_closed x2 (g_wf _ _ _ _ _ G3)) as G4.
+    pose proof (Good_trans _ _ _ _ _ _ _ _ G1
+                  (Good_trans _ _ _ _ _ _ _ _ (Good_frame (cchain x) _ _ _ _ _ G2)
+                     (Good_trans _ _ _ _ _ _ _ _ G3 G4))) as G.
+    inversion H; subst. exact G.
   - inversion H; subst. replace [CClosed] with ([] ++ [CClosed]) by reflexivity.
     assert (G1 : Good x [] (upd_s x (mkC (c_tcp (cs x)) (c_fd (cs x)) None (c_delayed (cs x)) (c_pollout (cs x))
                                         (c_fed (cs x)) true true))).
-    { apply Good_same; cbn; auto. split; cbn; [discriminate|auto]. }
-    eapply Good_trans; [exact G1|]. apply Good_closed_event, (g_wf _ _ _ G1).
+    { destruct W as (W1 & W2 & W3 & W4).
+      assert (W' : wf (upd_s x (mkC (c_tcp (cs x)) (c_fd (cs x)) None (c_delayed (cs x)) (c_pollout (cs x))
+                                    (c_fed (cs x)) true true))).
+      { unfold wf; cbn. repeat split; auto; try discriminate; try (apply W3, R). }
+      constructor; auto; try (cbn; constructor); try lia.
+      intros q. unfold pend; cbn. rewrite R. reflexivity. }
+    eapply Good_trans; [exact G1|]. apply Good_event_closed, (g_wf _ _ _ _ _ G1).
 Qed.
 
 Lemma run_iter_good x beh x' e : wf x -> run_iter x beh = (x', e) -> Good x e x'.
@@ -456,19 +604,19 @@ Proof.
   match type of H with (let (_, _) := run_pending ?y beh in _) = _ =>
     assert (G0 : Good x [] y) by (apply Good_same; cbn; auto);
     destruct (run_pending y beh) as [x1 e1] eqn:E1 end.
-  pose proof (run_pending_good _ _ _ _ (g_wf _ _ _ G0) E1) as G1.
+  pose proof (run_pending_good _ _ _ _ (g_wf _ _ _ _ _ G0) E1) as G1.
   match type of H with (let (_, _) := ?t in _) = _ => destruct t as [x2 e2] eqn:E2 end.
   assert (G2 : Good x1 e2 x2).
   { destruct (c_pollout (cs x1) && rdy && negb (c_closing (cs x1))).
-    - eapply stream_io_good; [apply (g_wf _ _ _ G1)|exact E2].
-    - inversion E2; subst. apply Good_refl, (g_wf _ _ _ G1). }
+    - eapply stream_io_good; [apply (g_wf _ _ _ _ _ G1)|exact E2].
+    - inversion E2; subst. apply Good_refl, (g_wf _ _ _ _ _ G1). }
   destruct (drain 8 x2 beh) as [x3 e3] eqn:E3.
-  pose proof (drain_good _ _ _ _ _ (g_wf _ _ _ G2) E3) as G3.
+  pose proof (drain_good _ _ _ _ _ (g_wf _ _ _ _ _ G2) E3) as G3.
   match type of H with (let (_, _) := ?t in _) = _ => destruct t as [x4 e4] eqn:E4 end.
   assert (G4 : Good x3 e4 x4).
   { destruct (c_closing (cs x3) && negb (c_closed (cs x3))).
-    - eapply destroy_good; [apply (g_wf _ _ _ G3)|exact E4].
-    - inversion E4; subst. apply Good_refl, (g_wf _ _ _ G3). }
+    - eapply destroy_good; [apply (g_wf _ _ _ _ _ G3)|exact E4].
+    - inversion E4; subst. apply Good_refl, (g_wf _ _ _ _ _ G3). }
   inversion H; subst. replace (e1 ++ e2 ++ e3 ++ e4) with ([] ++ e1 ++ e2 ++ e3 ++ e4) by reflexivity.
   eapply Good_trans; [exact G0|]. eapply Good_trans; [exact G1|].
   eapply Good_trans; [exact G2|]. eapply Good_trans; [exact G3|exact G4].
@@ -486,11 +634,13 @@ Proof.
   - inversion H; subst. apply Good_refl, W.
   - destruct (cstep x o beh) as [x1 e1] eqn:E1. destruct (crun x1 r beh) as [x2 e2] eqn:E2.
     inversion H; subst. pose proof (cstep_good _ _ _ _ _ W E1) as G1.
-    eapply Good_trans; [exact G1|]. apply IH; [apply (g_wf _ _ _ G1)|exact E2].
+    eapply Good_trans; [exact G1|]. change (CReg (creg x1) :: e2) with ([CReg (creg x1)] ++ e2).
+    eapply Good_trans; [apply Good_event; [exact I|apply (g_wf _ _ _ _ _ G1)]|].
+    apply IH; [apply (g_wf _ _ _ _ _ G1)|exact E2].
 Qed.
 
-Lemma cinit_wf tcp o : wf (cinit tcp o).
-Proof. split; cbn; discriminate. Qed.
+Lemma cinit_wf pfix tcp o : wf (cinit pfix tcp o).
+Proof. unfold wf; cbn. repeat split; auto; discriminate. Qed.
 
 (* ---- top level ---- *)
 Lemma subs_in_rets t r : In r (subs t) -> In r (rets t).
@@ -512,18 +662,21 @@ Proof.
 Qed.
 
 (* every request whose submitting call returned 0 is in exactly one of three
-   states: called back once, still pending, or overwritten (pipes only) *)
-Theorem connect_counting tcp o os beh :
-  let '(x, tr) := crun (cinit tcp o) os beh in
-  wf x /\ Forall status_ok tr /\ (tcp = true -> losts tr = []) /\
-  forall r, In (CRet r 0) tr -> (cnt (cbs tr) r + cnt (losts tr) r + pend (cs x) r = 1)%nat.
+   states: called back once, still owed its callback (connect_req or linked behind it),
+   or overwritten (unrepaired pipe code only) *)
+Theorem connect_counting pfix tcp o os beh :
+  let '(x, tr) := crun (cinit pfix tcp o) os beh in
+  wf x /\ Forall status_ok tr /\ (tcp = true \/ pfix = true -> losts tr = []) /\
+  forall r, In (CRet r 0) tr -> (cnt (cbs tr) r + cnt (losts tr) r + pend x r = 1)%nat.
 Proof.
-  destruct (crun (cinit tcp o) os beh) as [x tr] eqn:E.
-  pose proof (crun_good _ _ _ _ _ (cinit_wf tcp o) E) as G.
-  split; [apply (g_wf _ _ _ G)|]. split; [apply (g_st _ _ _ G)|]. split; [apply (g_lost _ _ _ G)|].
-  intros r Hr. rewrite (g_cnt _ _ _ G r). unfold pend at 1. cbn. rewrite Nat.add_0_r.
+  destruct (crun (cinit pfix tcp o) os beh) as [x tr] eqn:E.
+  pose proof (crun_good _ _ _ _ _ (cinit_wf pfix tcp o) E) as G.
+  split; [apply (g_wf _ _ _ _ _ G)|]. split; [apply (g_st _ _ _ _ _ G)|].
+  split; [apply (g_lost _ _ _ _ _ G)|].
+  intros r Hr. pose proof (g_cnt _ _ _ _ _ G r) as C. rewrite !cnt_nil in C.
+  unfold pend at 2 in C. cbn in C. rewrite !Nat.add_0_r in C. rewrite C.
   apply (proj1 (NoDup_count_occ' Nat.eq_dec (subs tr))).
-  - apply subs_nodup, (g_nodup _ _ _ G).
+  - apply subs_nodup, (g_nodup _ _ _ _ _ G).
   - apply ret0_in_subs, Hr.
 Qed.
 
@@ -538,12 +691,15 @@ Qed.
 
 Lemma destroy_closed x beh : wf x -> c_closed (cs (fst (destroy x beh))) = true.
 Proof.
-  intros W. unfold destroy. destruct (c_req (cs x)).
-  - match goal with |- context [run_cb ?y beh] => destruct (run_cb y beh) as [x2 e2] eqn:Er;
-      assert (Wy : wf y) by (destruct W as (W1 & W2); split; cbn; [discriminate|auto]);
-      pose proof (run_cb_good _ _ _ _ Wy Er) as G end.
-    cbn [fst]. apply (g_closed _ _ _ G). reflexivity.
-  - reflexivity.
+  intros W. unfold destroy. destruct (c_req (cs x)) as [r|] eqn:R; [|reflexivity].
+  match goal with |- context [run_cb ?y beh] =>
+    assert (G1 : GoodD [] (cchain x) x [CCb r UV_ECANCELED SrcCancel] y) by (apply Good_cb; cbn; auto);
+    destruct (run_cb y beh) as [x1 e1] eqn:Er end.
+  pose proof (run_cb_good _ _ _ _ (g_wf _ _ _ _ _ G1) Er) as G2.
+  destruct (reject (cchain x) UV_ECANCELED SrcCancel x1 beh) as [x2 e2] eqn:Ej.
+  assert (G3 : GoodD (cchain x) [] x1 e2 x2).
+  { exact (reject_good beh UV_ECANCELED SrcCancel (cchain x) x1 x2 e2 (g_wf _ _ _ _ _ G2) (fun q => eq_refl) Ej). }
+  cbn [fst]. apply (g_closed _ _ _ _ _ G3), (g_closed _ _ _ _ _ G2). reflexivity.
 Qed.
 
 Lemma run_iter_closes x beh :
@@ -554,49 +710,54 @@ Proof.
   match goal with |- context [run_pending ?y beh] =>
     assert (G0 : Good x [] y) by (apply Good_same; cbn; auto);
     destruct (run_pending y beh) as [x1 e1] eqn:E1 end.
-  pose proof (run_pending_good _ _ _ _ (g_wf _ _ _ G0) E1) as G1.
+  pose proof (run_pending_good _ _ _ _ (g_wf _ _ _ _ _ G0) E1) as G1.
   match goal with |- context [let (_, _) := ?t in _] => destruct t as [x2 e2] eqn:E2 end.
   assert (G2 : Good x1 e2 x2).
   { destruct (c_pollout (cs x1) && rdy && negb (c_closing (cs x1))).
-    - eapply stream_io_good; [apply (g_wf _ _ _ G1)|exact E2].
-    - inversion E2; subst. apply Good_refl, (g_wf _ _ _ G1). }
+    - eapply stream_io_good; [apply (g_wf _ _ _ _ _ G1)|exact E2].
+    - inversion E2; subst. apply Good_refl, (g_wf _ _ _ _ _ G1). }
   destruct (drain 8 x2 beh) as [x3 e3] eqn:E3.
-  pose proof (drain_good _ _ _ _ _ (g_wf _ _ _ G2) E3) as G3.
+  pose proof (drain_good _ _ _ _ _ (g_wf _ _ _ _ _ G2) E3) as G3.
   assert (C3 : c_closing (cs x3) = true).
-  { apply (g_closing _ _ _ G3), (g_closing _ _ _ G2), (g_closing _ _ _ G1), (g_closing _ _ _ G0), Hc. }
+  { apply (g_closing _ _ _ _ _ G3), (g_closing _ _ _ _ _ G2), (g_closing _ _ _ _ _ G1),
+      (g_closing _ _ _ _ _ G0), Hc. }
   rewrite C3. cbn [andb]. destruct (c_closed (cs x3)) eqn:D3; cbn [negb].
   - cbn [fst]. exact D3.
-  - pose proof (destroy_closed x3 beh (g_wf _ _ _ G3)) as D. destruct (destroy x3 beh). exact D.
+  - pose proof (destroy_closed x3 beh (g_wf _ _ _ _ _ G3)) as D. destruct (destroy x3 beh). exact D.
 Qed.
 
 (* C07_connect_once: after the handle has been closed and the loop has run once more,
-   every request accepted with 0 that was not overwritten got exactly one callback *)
-Theorem connect_once tcp o os beh :
-  let '(x, tr) := crun (cinit tcp o) (os ++ [CClose; CRun]) beh in
-  c_closed (cs x) = true /\ c_req (cs x) = None /\ (tcp = true -> losts tr = []) /\
+   every request accepted with 0 that was not overwritten got exactly one callback; nothing
+   is overwritten on tcp handles, nor on pipes in the repaired variant *)
+Theorem connect_once pfix tcp o os beh :
+  let '(x, tr) := crun (cinit pfix tcp o) (os ++ [CClose; CRun]) beh in
+  c_closed (cs x) = true /\ c_req (cs x) = None /\ cchain x = [] /\
+  (tcp = true \/ pfix = true -> losts tr = []) /\
   forall r, In (CRet r 0) tr -> ~ In r (losts tr) -> cnt (cbs tr) r = 1%nat.
 Proof.
-  pose proof (connect_counting tcp o (os ++ [CClose; CRun]) beh) as H.
+  pose proof (connect_counting pfix tcp o (os ++ [CClose; CRun]) beh) as H.
   rewrite crun_app in *.
-  destruct (crun (cinit tcp o) os beh) as [x1 e1] eqn:E1.
-  pose proof (crun_good _ _ _ _ _ (cinit_wf tcp o) E1) as G1.
+  destruct (crun (cinit pfix tcp o) os beh) as [x1 e1] eqn:E1.
+  pose proof (crun_good _ _ _ _ _ (cinit_wf pfix tcp o) E1) as G1.
   cbn [crun cstep] in *.
   destruct (cexec_simple x1 CClose) as [x2 e2] eqn:E2.
-  pose proof (cexec_simple_good _ _ _ _ (g_wf _ _ _ G1) E2) as G2.
+  pose proof (cexec_simple_good _ _ _ _ (g_wf _ _ _ _ _ G1) E2) as G2.
   assert (C2 : c_closing (cs x2) = true).
   { cbn in E2. unfold cclose in E2. destruct (c_closing (cs x1)) eqn:C; inversion E2; subst; auto. }
-  pose proof (run_iter_closes x2 beh (g_wf _ _ _ G2) C2) as D.
+  pose proof (run_iter_closes x2 beh (g_wf _ _ _ _ _ G2) C2) as D.
   destruct (run_iter x2 beh) as [x3 e3]. cbn [fst] in D.
   destruct H as (W & _ & L & Hc).
-  assert (R : c_req (cs x3) = None) by (destruct W as (_ & W2); apply (W2 D)).
-  split; [exact D|]. split; [exact R|]. split; [exact L|].
-  intros r Hr Hl. specialize (Hc r Hr). unfold pend in Hc. rewrite R in Hc.
+  assert (R : c_req (cs x3) = None) by (destruct W as (_ & W2 & _); apply (W2 D)).
+  assert (Ch : cchain x3 = []) by (destruct W as (_ & _ & W3 & _); apply (W3 R)).
+  split; [exact D|]. split; [exact R|]. split; [exact Ch|]. split; [exact L|].
+  intros r Hr Hl. specialize (Hc r Hr). unfold pend in Hc. rewrite R, Ch in Hc. cbn in Hc.
   unfold cnt in *. rewrite (proj1 (count_occ_not_In Nat.eq_dec _ _) Hl) in Hc. lia.
 Qed.
 
+(* the unrepaired pipe code: the first of two uv_pipe_connect2 calls never completes *)
 Lemma connect_once_refuted :
   exists o os beh r,
-    let '(x, tr) := crun (cinit false o) (os ++ [CClose; CRun]) beh in
+    let '(x, tr) := crun (cinit false false o) (os ++ [CClose; CRun]) beh in
     In (CRet r 0) tr /\ c_closed (cs x) = true /\ cnt (cbs tr) r = 0%nat.
 Proof.
   exists (mkO [] [0; -2] [] []), [CPipe2 0 40 false; CPipe2 0 40 false; CRun], (fun _ => []), 0%nat.
@@ -604,13 +765,13 @@ Proof.
 Qed.
 
 (* status: a callback with status 0 can only come from an SO_ERROR answer of 0 *)
-Lemma status_zero_from_oracle tcp o os beh r src :
-  In (CCb r 0 src) (snd (crun (cinit tcp o) os beh)) -> src = SrcSo.
+Lemma status_zero_from_oracle pfix tcp o os beh r src :
+  In (CCb r 0 src) (snd (crun (cinit pfix tcp o) os beh)) -> src = SrcSo.
 Proof.
-  intros H. pose proof (connect_counting tcp o os beh) as C.
-  destruct (crun (cinit tcp o) os beh) as [x tr]. destruct C as (_ & S & _).
+  intros H. pose proof (connect_counting pfix tcp o os beh) as C.
+  destruct (crun (cinit pfix tcp o) os beh) as [x tr]. destruct C as (_ & S & _).
   rewrite Forall_forall in S. specialize (S _ H). cbn in *.
-  destruct src; [reflexivity|contradiction|]. unfold UV_ECANCELED in S. discriminate.
+  destruct src; [reflexivity|contradiction| |]; unfold UV_ECANCELED, UV_EALREADY in S; discriminate.
 Qed.
 
 (* ... and an SO_ERROR answer of 0 (no delayed error) completes the request with 0 *)
@@ -619,7 +780,8 @@ Lemma established_status_zero x beh r rest :
   exists e, snd (stream_connect x beh) = CCb r 0 SrcSo :: e.
 Proof.
   intros R D O. unfold stream_connect. rewrite R, D, O. cbn.
-  match goal with |- context [run_cb ?y beh] => destruct (run_cb y beh) as [x2 e2] end.
+  match goal with |- context [run_cb ?y beh] => destruct (run_cb y beh) as [x1 e1] end.
+  match goal with |- context [reject ?c ?s ?k ?y beh] => destruct (reject c s k y beh) as [x2 e2] end.
   cbn. eexists; reflexivity.
 Qed.
 
@@ -636,6 +798,7 @@ Proof.
   unfold run_pending. cbn [cs c_fed c_pollout c_closing andb negb].
   cbn [drain cs c_fed]. cbn [c_closing c_closed]. rewrite Hd. cbn [negb andb].
   unfold destroy. cbn [cs c_req upd_s]. rewrite R.
-  match goal with |- context [run_cb ?y beh] => destruct (run_cb y beh) as [x2 e2] end.
+  match goal with |- context [run_cb ?y beh] => destruct (run_cb y beh) as [x1 e1] end.
+  match goal with |- context [reject ?c ?s ?k ?y beh] => destruct (reject c s k y beh) as [x2 e2] end.
   cbn. eexists; reflexivity.
 Qed.
